@@ -116,8 +116,10 @@ fn gen(rng: &mut Rng) -> Program {
         // a write that races the catch-up computation of a key the catch-up certainly carries: the key
         // exists (single-word value) before the node leaves and is removed or overwritten at the very
         // instant of the synchronisation
-        before.push(Op::Set { db: 0, key: "kc".into(), val: "one".into() });
-        during = vec![if rng.chance(1, 2) { Op::Remove { db: 0, key: "kc".into() } } else { Op::Set { db: 0, key: "kc".into(), val: "x".into() } }];
+        // (the value keeps a recognisable shape through the catch-up format of the pinned tree: its
+        //  first word is taken for the version, the rest arrives)
+        before.push(Op::Set { db: 0, key: "kc".into(), val: "7 apples and pears".into() });
+        during = vec![if rng.chance(2, 3) { Op::Remove { db: 0, key: "kc".into() } } else { Op::Set { db: 0, key: "kc".into(), val: "8 plums and figs".into() } }];
     }
     let bulk = if rng.chance(1, 12) { rng.range(90, 260) as u32 } else { 0 };
     Program { strategies, before, departure, away, during, during_at_sync, bulk }
@@ -244,7 +246,17 @@ fn execute(prog: Program) -> Outcome {
     // (re)join, with writes on the primary racing the synchronisation
     let at_sync = prog.during_at_sync;
     if at_sync {
-        with(|k| k.net.line_log = Some(Vec::new()));
+        with(|k| {
+            k.net.line_log = Some(Vec::new());
+            // cooperative fault point: the thread that computes the catch-up may be descheduled right
+            // after it copied a database / read an oplog record (in reality the computation takes long,
+            // in the simulator it takes no time unless somebody stalls it)
+            let (pm, max) = match std::env::var("NUNSIM_C05_STALL").ok().and_then(|v| v.split_once(',').map(|(a, b)| (a.parse().unwrap_or(500), b.parse().unwrap_or(800)))) {
+                Some(x) => x,
+                None => (500u32, 800u32),
+            };
+            k.stall_probes = vec![("full_sync_db_done".to_string(), pm, max), ("catch_up_record".to_string(), pm * 3 / 10, max)];
+        });
     }
     w.boot(1, &addrs);
     let during = prog.during.clone();
@@ -402,6 +414,10 @@ impl Property for C05 {
     fn components(&self) -> Json {
         json!({"real": ["start_sync_process / replicate-since", "get_pendding_opps_since (full and incremental)", "parse_replicate_command on the receiver", "oplog + last_op_time", "start_db restart path (oplog valid / discarded)", "join + election"],
                "simulated": ["TCP", "disk", "signals", "clock"], "stub": []})
+    }
+    fn worker_env(&self, _w: u64, _master: u64) -> Vec<(String, String)> {
+        // debug-level log lines of the catch-up computation serve as fault points (see execute)
+        vec![("NUNSIM_LOG".to_string(), "debug".to_string())]
     }
     fn run_one(&self, scenario: &str, ctx: &RunCtx) -> RunReport {
         let mut rng = Rng::new(ctx.seed);
